@@ -82,6 +82,27 @@ func genGraph(r *rand.Rand) *shape.Graph {
 	if r.Intn(2) == 0 {
 		g.SetU(ipn(r))
 	}
+	// empty but non-nil containers: a clone (hence a cached read) must keep them non-nil, as a round
+	// trip through the file does ([] / {} and not null)
+	if r.Intn(3) == 0 {
+		switch r.Intn(5) {
+		case 0:
+			g.B[r.Intn(len(g.B))] = []int{}
+		case 1:
+			g.MS = map[string][]*int{}
+		case 2:
+			g.SM = []map[string]*int{}
+		case 3:
+			g.L.S = []int{}
+		case 4:
+			if g.MS != nil {
+				g.MS["e"] = []*int{}
+			}
+			if len(g.SM) > 0 {
+				g.SM[0] = map[string]*int{}
+			}
+		}
+	}
 	return g
 }
 
@@ -92,6 +113,13 @@ func (t idtab) id(p uintptr) int {
 		return n
 	}
 	t[p] = len(t) + 1
+	return len(t)
+}
+
+// an empty slice of capacity 0 has no cell to share; the runtime gives all of them the same base
+// address, so each occurrence gets an identity of its own
+func (t idtab) fresh() int {
+	t[^uintptr(len(t))] = len(t) + 1
 	return len(t)
 }
 
@@ -118,6 +146,9 @@ func sexp(v reflect.Value, t idtab) string {
 		var es []string
 		for i := 0; i < v.Len(); i++ {
 			es = append(es, sexp(v.Index(i), t))
+		}
+		if v.Len() == 0 && v.Cap() == 0 {
+			return fmt.Sprintf("(l %d )", t.fresh())
 		}
 		return fmt.Sprintf("(l %d %s)", t.id(v.Pointer()), strings.Join(es, " "))
 	case reflect.Map:
